@@ -257,7 +257,8 @@ def coset_structure(db, rep):
 def last_layer(db, rep):
     fn = db.fn(common.VERIFY_LAST_LAYER, 'C06.last')
     fl = dataflow.Flow(db, fn)
-    gs = dataflow.own_guards(db, fn, fl)
+    # own guards and those of a closure applied to every query by try_for_each / try_fold
+    gs = [g for g in dataflow.effective_guards(db, common.VERIFY_LAST_LAYER) if getattr(g, 'kind', None) not in ('discr', 'bounds')]
     ok = False
     desc = []
     for g in gs:
@@ -275,7 +276,7 @@ def last_layer(db, rep):
         flh = dataflow.Flow(db, h)
         ret = flh.leaves(0)
         rep.ob('C06.last', 'horner-shape', {'op:mul', 'op:add'} <= ret and any(x.startswith('a1') for x in ret)
-               and 'a2' in ret and any(t['f'].get('name') == 'rev' for _, t in h.calls()),
+               and 'a2' in ret and any(t['f'].get('name') in ('rev', 'rfold', 'try_rfold', 'next_back') for b_ in common.bodies(db, h) for _, t in b_.calls()),
                f'horner_eval: result leaves {sorted(ret)[:8]}, iterates coefficients in reverse', h.loc(), db.config)
 
 
